@@ -86,7 +86,7 @@ def generate(seed, tier):
     ops = []
     rate = rng.choice([0.0, 0.05, 0.15, 0.3, 0.6])
     Ms = rng.sample(ORDERS, rng.randint(1, 3)) if rng.random() < 0.8 else ORDERS
-    w = {"frame": 10, "sdd": 4, "gv": 1, "bad": 1, "reseed": rng.choice([0, 1, 2])}
+    w = {"frame": 10, "sdd": 4, "gv": 1, "bad": 1, "reseed": rng.choice([0, 1, 2]), "d2b": rng.choice([0, 1])}
     kinds = [k for k, c in w.items() for _ in range(c)]
     for _ in range(rng.randint(6, 16)):
         k = rng.choice(kinds)
@@ -94,8 +94,8 @@ def generate(seed, tier):
             M = rng.choice(Ms)
             kb = M.bit_length() - 1
             nsym = rng.choice([0, 1, 1, 2, 3, 5, 8, 16, 40])
-            if rng.random() < 0.01:
-                nsym = rng.choice([5000, 70000]) if M <= 16 else 3000
+            if rng.random() < 0.02:
+                nsym = rng.choice([5000, 30000, 70000]) if M <= 16 else 3000
             nbits = nsym * kb + (rng.randrange(kb) if rng.random() < 0.3 else 0)
             ops.append({"op": "frame", "M": M, "nbits": nbits, "bseed": rng.getrandbits(32),
                         "form": rng.choice(FORMS), "form2": rng.choice(FORMS),
@@ -118,6 +118,9 @@ def generate(seed, tier):
                         "M": rng.choice([4, 8, 16])})
         elif k == "reseed":
             ops.append({"op": "reseed", "s": rng.getrandbits(31)})
+        elif k == "d2b":
+            M = rng.choice(Ms)
+            ops.append({"op": "d2b", "v": rng.randrange(M), "k": M.bit_length() - 1})
     return {}, ops
 
 
@@ -247,6 +250,19 @@ class Link:
         np.random.seed(op["s"])
         self.rec.fault("rng_reseed")
         return op["s"]
+
+    def op_d2b(self, op):
+        """A user converts a symbol value himself and then edits the returned word in place."""
+        import opticomlib.utils as ut
+        w = ut.dec2bin(op["v"], op["k"])
+        exp = [(op["v"] >> (op["k"] - 1 - j)) & 1 for j in range(op["k"])]
+        if np.asarray(w).tolist() != exp:
+            raise Violation("C12/roundtrip", f"dec2bin({op['v']}, {op['k']}) = {np.asarray(w).tolist()}, expected {exp}",
+                            "dec2bin")
+        if isinstance(w, np.ndarray) and w.flags.writeable and w.size:
+            w[:] = 1 - w
+            self.rec.fault("scribble_result")
+        return "ok"
 
     # ---- one frame over the faulty slot channel --------------------------------------------
     def op_frame(self, op):
